@@ -269,6 +269,13 @@ func (w *World) Header(h int64) tmproto.Header {
 	return tmproto.Header{Height: h, ChainID: ChainID, Time: BlockTime(h), AppHash: w.Cfg.Seed}
 }
 
+// HeaderSeed is Header(h) with another selection seed (header AppHash).
+func (w *World) HeaderSeed(h int64, seed []byte) tmproto.Header {
+	hd := w.Header(h)
+	hd.AppHash = seed
+	return hd
+}
+
 func BlockTime(h int64) time.Time { return time.Unix(1_700_000_000+5*h, 0).UTC() }
 
 // New builds the application, runs InitChain and BeginBlock(1) (no Commit), as a real node does.
